@@ -32,6 +32,8 @@ S = "antismash/common/secmet/"
 OPAQUE_TYPES = ("gene", "CDS", "CDS_motif", "aSDomain", "PFAM_domain", "aSModule", "source")
 BASE_KEYS = ("note", "tool", "codon_start")
 KF_ORDER = "KF-C10-inconsistent-area-order"
+KF_PREPEPTIDE = "KF-C10-reverse-prepeptide-location"
+KF_FUNCTION = "KF-C10-gene-function-colon"
 WORKERS = max(2, min(8, (os.cpu_count() or 4) // 2))
 
 
@@ -49,15 +51,104 @@ def qlist(quals: Any) -> List[List[Any]]:
 
 # ----------------------------------------------------------------------------- state dump of a real record
 
+def loc_json(location: Any) -> Dict[str, Any]:
+    """canonical location incl. the operator of a compound location when it is not the default `join`
+    (the Lean model has no operator: it is exercised by the real round trips only)"""
+    out = common.location_json(location)
+    operator = getattr(location, "operator", "join")
+    if out["c"] and operator != "join":
+        out["op"] = operator
+    return out
+
+
+# attributes of the base class: compared through the Lean view (`Feat.view`), not through the attribute dump
+BASE_SLOTS = {"location", "notes", "type", "_qualifiers", "created_by_antismash", "_original_codon_start"}
+# back references and caches of collections / CDS features (areas are compared through their own views)
+SKIP_SLOTS = {"_parent_record", "_cdses", "_children", "_parent", "_definition_cdses", "_contig_edge", "unique_id",
+              "_protoclusters", "_candidate_clusters", "_subregions", "_core_location", "_wrap_point"}
+
+
+def _slots(obj: Any) -> List[str]:
+    names: List[str] = []
+    for cls in type(obj).__mro__:
+        for name in getattr(cls, "__slots__", ()) or ():
+            if name not in names and name != "__dict__" and name != "__weakref__":
+                names.append(name)
+    names.extend(k for k in getattr(obj, "__dict__", {}) if k not in names)
+    return names
+
+
+def attr_dump(obj: Any, depth: int = 0) -> Any:
+    """every attribute an object carries, canonicalised: numbers/strings as they are, enums as text, locations
+    with operator, other features as references (type, location, name), sets sorted, dictionaries sorted by key,
+    any other object attribute by attribute"""
+    from enum import Enum
+    from Bio.Seq import Seq
+    from antismash.common.secmet.features import Feature
+    if obj is None or isinstance(obj, (bool, int, float, str)):
+        return obj
+    if isinstance(obj, Enum):
+        return str(obj)
+    if isinstance(obj, Seq):
+        return str(obj)
+    if hasattr(obj, "parts") and hasattr(obj, "strand") and hasattr(obj, "start"):
+        return loc_json(obj)
+    if isinstance(obj, Feature) and depth > 0:
+        name = None
+        if hasattr(obj, "get_name"):
+            try:
+                name = obj.get_name()
+            except Exception:  # pylint: disable=broad-except
+                name = None
+        return {"ref": obj.type, "at": loc_json(obj.location), "name": name}
+    if isinstance(obj, dict):
+        return sorted(([attr_dump(k, depth + 1), attr_dump(v, depth + 1)] for k, v in obj.items()),
+                      key=lambda kv: json.dumps(kv[0], sort_keys=True, default=str))
+    if isinstance(obj, (set, frozenset)):
+        return sorted((attr_dump(x, depth + 1) for x in obj), key=lambda x: json.dumps(x, sort_keys=True, default=str))
+    if isinstance(obj, (list, tuple)):
+        return [attr_dump(x, depth + 1) for x in obj]
+    if depth > 6:
+        return "<deep>"
+    out: Dict[str, Any] = {"cls": type(obj).__name__}
+    for name in _slots(obj):
+        if name in SKIP_SLOTS or (depth == 0 and name in BASE_SLOTS):
+            continue
+        try:
+            value = getattr(obj, name)
+        except AttributeError:
+            continue
+        if callable(value) and not isinstance(value, type):
+            continue
+        out[name] = attr_dump(value, depth + 1)
+    if depth == 0 and hasattr(obj, "location"):
+        out["@loc"] = loc_json(obj.location)
+        out["@type"] = obj.type
+    return out
+
+
+def dump_attrs(rec: Any) -> List[Any]:
+    """attribute dumps of every feature of the record that is not an area, as a sorted multiset"""
+    features = list(rec.get_sources()) + list(rec.get_generics()) + list(rec.get_genes()) + \
+        list(rec.get_cds_features()) + list(rec.get_cds_motifs()) + list(rec.get_antismash_domains()) + \
+        list(rec.get_pfam_domains()) + list(rec.get_modules())
+    areas = list(rec.get_protoclusters())
+    dumps = [attr_dump(f) for f in features] + [{"cls": "t2pks-of-protocluster", "at": loc_json(a.location), "product": a.product,
+                                                 "t2pks": attr_dump(a.t2pks, 1)} for a in areas]
+    return sorted(dumps, key=lambda d: json.dumps(d, sort_keys=True, default=str))
+
+
 def dump_feat(feature: Any, opaque: bool = False) -> Dict[str, Any]:
     quals: Dict[str, List[str]] = {k: list(v or []) for k, v in feature._qualifiers.items()}
     if opaque:
-        # the class-specific qualifiers, as the class itself prints them (not modelled further)
-        bio = feature.to_biopython()[0]
+        # the class-specific qualifiers, as the class itself prints them (not modelled further); a prepeptide is
+        # written as up to three features: the model sees it as one feature with the qualifiers of its core
+        bios = feature.to_biopython()
+        bio = next((b for b in bios if b.qualifiers.get("prepeptide") == ["core"]), bios[0])
         for key, val in bio.qualifiers.items():
             if key not in BASE_KEYS:
-                quals[key] = list(val)
-    return {"loc": common.location_json(feature.location), "type": feature.type,
+                quals[key] = list(val or [])
+    return {"loc": loc_json(feature.location), "type": feature.type,
             "notes": list(feature.notes), "quals": qlist(quals),
             "byAS": bool(feature.created_by_antismash), "codon": feature._original_codon_start}
 
@@ -71,9 +162,12 @@ def dump_record(rec: Any) -> Dict[str, Any]:
     protos = list(rec.get_protoclusters())
     cands = list(rec.get_candidate_clusters())
     subs = list(rec.get_subregions())
+    from antismash.common.secmet.features import Prepeptide
     plain = list(rec.get_sources()) + list(rec.get_generics()) + list(rec.get_genes()) + \
         list(rec.get_cds_motifs()) + list(rec.get_antismash_domains()) + list(rec.get_pfam_domains()) + \
         list(rec.get_modules())
+    pre_locs = {m.locus_tag: {"loc": common.location_json(m.location), "ls": str(m.location)}
+                for m in rec.get_cds_motifs() if isinstance(m, Prepeptide)}
     index = {id(p): i for i, p in enumerate(protos)}
     cindex = {id(c): i for i, c in enumerate(cands)}
     sindex = {id(s): i for i, s in enumerate(subs)}
@@ -96,7 +190,68 @@ def dump_record(rec: Any) -> Dict[str, Any]:
                    "coreloc": coreloc(c)} for c in cands],
         "regs": [{"feat": dump_feat(g), "cands": [cindex[id(c)] for c in g.candidate_clusters],
                   "subs": [sindex[id(s)] for s in g.subregions]} for g in rec.get_regions()],
+        "attrs": dump_attrs(rec), "pre_locs": pre_locs,
     }
+
+
+def for_model(obj: Any) -> Any:
+    """what the Lean model is compared with: no operators (`order{` reads as `join{`), no attribute dumps"""
+    if isinstance(obj, dict):
+        out = {k: for_model(v) for k, v in obj.items() if k not in ("op", "attrs", "pre_locs")}
+        if isinstance(out.get("ls"), str) and out["ls"].startswith("order{"):
+            out["ls"] = "join{" + out["ls"][len("order{"):]
+        return out
+    if isinstance(obj, list):
+        return [for_model(x) for x in obj]
+    return obj
+
+
+def text_strands(obj: Any) -> Any:
+    """GenBank text has no strandless locations: `None` reads back as `+1`"""
+    if isinstance(obj, dict):
+        out = {k: text_strands(v) for k, v in obj.items()}
+        if "parts" in out and "c" in out:
+            out["parts"] = [[lo, hi, 1 if strand is None else strand] for lo, hi, strand in out["parts"]]
+        return out
+    if isinstance(obj, list):
+        return [text_strands(x) for x in obj]
+    return obj
+
+
+def attrs_diff(before: List[Any], after: List[Any], textual: bool) -> str:
+    """'' when the two attribute dumps describe the same features, else the first difference"""
+    if textual:
+        before, after = text_strands(before), text_strands(after)
+    def key(d: Any) -> str:
+        return json.dumps(d, sort_keys=True, default=str)
+    a, b = sorted(map(key, before)), sorted(map(key, after))
+    if a == b:
+        return ""
+    only_a = [x for x in a if x not in b]
+    only_b = [x for x in b if x not in a]
+    if only_a and only_b:
+        # show the first differing attribute of the closest pair
+        x, y = json.loads(only_a[0]), json.loads(only_b[0])
+        for k in sorted(set(x) | set(y)):
+            if x.get(k) != y.get(k):
+                return f"{x.get('cls')} {x.get('@loc')}: attribute {k}: {x.get(k)!r} -> {y.get(k)!r}"
+    return f"{len(only_a)} features only before, {len(only_b)} only after: {(only_a or only_b)[0][:300]}"
+
+
+def modelled_bios(bios: List[Dict[str, Any]], pre_locs: Dict[str, Any]) -> List[Dict[str, Any]]:
+    """the written features as the model predicts them: the pieces of a prepeptide (leader, core, tail, written
+    one after the other) collapse into one feature at the prepeptide's location with the core's qualifiers"""
+    out = []
+    for b in bios:
+        quals = dict((k, v) for k, v in b["quals"])
+        if "prepeptide" in quals:
+            if quals["prepeptide"] != ["core"]:
+                continue
+            where = pre_locs.get(quals["locus_tag"][0].replace(" ", ""), {"loc": b["loc"], "ls": b["ls"]})
+            # (the core is written with an empty note list of its own)
+            b = dict(b, loc=where["loc"], ls=where["ls"], quals=sorted(q for q in b["quals"] if q != ["note", []]))
+        out.append(b)
+    return for_model(out)
 
 
 def dump_bios(bio_record: Any) -> List[Dict[str, Any]]:
@@ -107,7 +262,8 @@ def dump_bios(bio_record: Any) -> List[Dict[str, Any]]:
 def canon_state(state: Dict[str, Any]) -> Dict[str, Any]:
     """plain features as a multiset with key-sorted qualifiers (their dictionary order is not modelled)"""
     def canon(f: Dict[str, Any]) -> Dict[str, Any]:
-        return dict(f, quals=sorted(f["quals"]))
+        # the `tool` marker mirrors `byAS` (a re-read module does not keep it among its leftovers)
+        return dict(f, quals=sorted(q for q in f["quals"] if q[0] != "tool"))
     out = dict(state)
     out["others"] = sorted((canon(f) for f in state["others"]), key=lambda f: json.dumps(f, sort_keys=True))
     out["cdss"] = [canon(f) for f in state["cdss"]]
@@ -119,7 +275,7 @@ def canon_state(state: Dict[str, Any]) -> Dict[str, Any]:
 def _bio_location(loc: Dict[str, Any]) -> Any:
     from Bio.SeqFeature import CompoundLocation, SimpleLocation
     parts = [SimpleLocation(lo, hi, strand) for lo, hi, strand in loc["parts"]]
-    return CompoundLocation(parts) if loc["c"] else parts[0]
+    return CompoundLocation(parts, operator=loc.get("op", "join")) if loc["c"] else parts[0]
 
 
 def build_record(case: Dict[str, Any]) -> Any:
@@ -127,8 +283,10 @@ def build_record(case: Dict[str, Any]) -> Any:
     from Bio.SeqFeature import SeqFeature
     from Bio.SeqRecord import SeqRecord
     from antismash.common.secmet import Record
-    from antismash.common.secmet.features import (AntismashDomain, CandidateCluster, CDSMotif, Feature, PFAMDomain,
-                                                  Protocluster, SubRegion)
+    from antismash.common.secmet.features import (AntismashDomain, CandidateCluster, CDSMotif, Feature, Module, PFAMDomain,
+                                                  Prepeptide, Protocluster, SubRegion)
+    from antismash.common.secmet.qualifiers import GOQualifier, SecMetQualifier
+    from antismash.common.secmet.qualifiers.nrps_pks import _HMMResultLike
     from antismash.common.secmet.features.candidate_cluster import CandidateClusterKind
     from antismash.common.secmet.features.protocluster import SideloadedProtocluster
     from antismash.common.secmet.features.subregion import SideloadedSubRegion
@@ -154,6 +312,13 @@ def build_record(case: Dict[str, Any]) -> Any:
         for func, tool, desc, product in ann.get("functions", []):
             cds.gene_functions.add(GeneFunction.from_string(func), tool, desc, product)
         cds.notes.extend(ann.get("notes", []))
+        if ann.get("sec_met"):
+            cds.sec_met = SecMetQualifier([SecMetQualifier.Domain(*d) for d in ann["sec_met"]])
+        for hit_id, start, end, evalue, score, feature_name, subtypes in ann.get("nrps_pks", {}).get("domains", []):
+            cds.nrps_pks.add_domain(_HMMResultLike(hit_id, start, end, evalue, score, [hit_id] + subtypes), feature_name)
+        if ann.get("nrps_pks", {}).get("type"):
+            cds.nrps_pks.type = ann["nrps_pks"]["type"]
+    made_domains: Dict[int, Any] = {}
     for dom in case.get("domains", []):
         cds = rec.get_cds_by_name(dom["cds"])
         ploc = FeatureLocation(dom["ps"], dom["pe"])
@@ -168,7 +333,39 @@ def build_record(case: Dict[str, Any]) -> Any:
         else:
             feature = CDSMotif(loc, cds.get_name(), ploc, "motiftool")
             feature.domain_id = "motif_%s_%d" % (cds.get_name(), dom["n"])
+        # everything an AntismashFeature / Domain / PFAMDomain serialises
+        if dom.get("score") is not None:
+            feature.score = dom["score"]
+        if dom.get("evalue") is not None:
+            feature.evalue = dom["evalue"]
+        for attr in ("label", "database", "detection"):
+            if dom.get(attr):
+                setattr(feature, attr, dom[attr])
+        if dom.get("translation"):
+            feature.translation = cds.translation[dom["ps"]:dom["pe"]]
+        for hit in dom.get("asf", []):
+            feature.asf.add(hit)
+        if dom["kind"] == "pfam" and dom.get("version"):
+            feature.version = dom["version"]
+        if dom["kind"] == "pfam" and dom.get("go"):
+            feature.gene_ontologies = GOQualifier(dict(dom["go"]))
         rec.add_feature(feature)
+        made_domains[dom["n"]] = feature
+    for mod in case.get("modules", []):
+        doms = [made_domains[n] for n in mod["domains"]]
+        cds = rec.get_cds_by_name(doms[0].locus_tag)
+        loc = cds.get_sub_location_from_protein_coordinates(min(d.protein_location.start for d in doms),
+                                                            max(d.protein_location.end for d in doms))
+        module = Module(loc, doms, module_type=Module.types.from_string(mod["type"]), complete=mod["complete"],
+                        starter=mod["starter"], final=mod["final"], iterative=mod["iterative"])
+        for substrate, monomer in mod.get("monomers", []):
+            module.add_monomer(substrate, monomer)
+        rec.add_module(module)
+    for pre in case.get("prepeptides", []):
+        cds = rec.get_cds_by_name(pre["cds"])
+        rec.add_cds_motif(Prepeptide(cds.location, pre["class"], pre["core"], cds.get_name(), pre["tool"], pre["subclass"],
+                                     pre["score"], pre["mono"], pre["mw"], pre["alt"], leader=pre["leader"],
+                                     tail=pre["tail"]))
     for g in case.get("generics", []):
         feature = Feature(common.make_location(g["loc"]), g["type"], created_by_antismash=True)
         feature.notes.extend(g.get("notes", []))
@@ -258,15 +455,37 @@ class C10(Property):
                                        "Record.add_candidate_cluster", "Record.add_subregion", "Record.add_region",
                                        "Record.add_cds_feature")] + [
         ("antismash/common/serialiser.py", q) for q in ("record_to_json", "record_from_json", "feature_to_json",
-                                                        "feature_from_json")]
+                                                        "feature_from_json")] + [
+        # exercised by the real round trips and compared attribute by attribute, not modelled
+        (S + "features/feature.py", "pop_locus_qualifier"),
+        (S + "features/antismash_feature.py", "AntismashFeature.to_biopython"),
+        (S + "features/antismash_feature.py", "AntismashFeature.from_biopython"),
+        (S + "features/domain.py", "Domain.to_biopython"), (S + "features/domain.py", "Domain.from_biopython"),
+        (S + "features/antismash_domain.py", "AntismashDomain.from_biopython"),
+        (S + "features/pfam_domain.py", "PFAMDomain.to_biopython"), (S + "features/pfam_domain.py", "PFAMDomain.from_biopython"),
+        (S + "features/cds_motif.py", "CDSMotif.from_biopython"),
+        (S + "features/prepeptide.py", "Prepeptide.to_biopython"), (S + "features/prepeptide.py", "Prepeptide.from_biopython"),
+        (S + "features/module.py", "Module.to_biopython"), (S + "features/module.py", "Module.from_biopython"),
+        (S + "features/cds_feature.py", "CDSFeature.to_biopython"), (S + "features/cds_feature.py", "CDSFeature.from_biopython"),
+        (S + "features/gene.py", "Gene.to_biopython"), (S + "features/gene.py", "Gene.from_biopython"),
+        (S + "qualifiers/gene_functions.py", "_GeneFunctionAnnotation.from_string"),
+        (S + "qualifiers/nrps_pks.py", "NRPSPKSQualifier.add_from_qualifier"),
+        (S + "qualifiers/secmet.py", "SecMetQualifier.from_biopython"),
+        (S + "qualifiers/go.py", "GOQualifier.from_biopython"),
+        (S + "locations.py", "build_location_from_others")]
     RULE = ("generated records built through the public API: input genes/CDS on both strands (single, multi-exon, "
             "origin-spanning, codon_start 1-3, equal sort keys), misc/source features with notes and qualifiers, gene "
             "functions and notes on CDS, PFAM/aSDomain/CDS_motif annotations, protoclusters from a coordinate grid incl. "
             "identical coordinates, origin-spanning cores, sideloaded ones with extra qualifiers, subregions (incl. "
             "sideloaded, origin-spanning), candidate clusters either from create_candidate_clusters or explicit groups "
             "of every kind with SMILES/polymer, regions from create_regions; linear and circular records of length "
-            "60..3000; each case runs the real GenBank text and results-JSON round trips; non-trivial = at least one "
-            "area or annotated CDS; distinct by canonical input")
+            "60..3000; PFAM/aSDomain/CDS_motif features with scores incl. 0.0 and negative, e-values, labels, database, "
+            "detection, translation, active-site hits, GO terms, Pfam versions; modules; sec_met and NRPS_PKS qualifiers; "
+            "prepeptides (leader/core/tail) incl. on CDS with MAKER-style locus tags long enough to be wrapped; "
+            "order(...) locations on genes, CDS and misc features; each case runs the real GenBank text and results-JSON "
+            "round trips and compares, besides the Lean views, an attribute-by-attribute dump (every slot of every "
+            "non-area feature, location operator included) of the original and both re-read records; non-trivial = at "
+            "least one area or annotated CDS; distinct by canonical input")
     TRUSTED = ["Biopython GenBank writer/parser (text layer, line wrapping, header), orjson; SeqFeature / location classes",
                "CPython list.sort for fewer than 64 elements is modelled (initial run + binary insertion); the merge phase for "
                "longer feature lists is not (generated records stay below 64 features)",
@@ -276,6 +495,10 @@ class C10(Property):
                "constructor validation (feature type length, product syntax, overlapping exons) and CDS name/location "
                "uniqueness checks are not modelled; generated inputs are valid",
                "strandless locations are read back as forward from GenBank text: the spec identifies None and +1 on that path",
+               "the operator of compound locations (join/order) is not in the Lean location model: it is compared by the "
+               "attribute dump of the real round trips only; a prepeptide is one opaque feature (its core) to the model",
+               "attribute dumps walk __slots__/__dict__ generically; back references and caches of collections are skipped; "
+               "T2PKS protocluster qualifiers and RiPP detailed_information (module results, not record text) are not generated",
                "areas carry no notes in the pipeline; candidate clusters and regions are generated without notes/qualifiers"]
 
     # ------------------------------------------------------------------ generators
@@ -287,6 +510,7 @@ class C10(Property):
         unit = n // 20
         grid = [i * unit for i in range(21)]
         case: Dict[str, Any] = {"f": "record", "len": n, "circ": circ, "input": [], "annot": [], "domains": [],
+                                "modules": [], "prepeptides": [],
                                 "generics": [], "subs": [], "protos": [], "cands": "auto", "regions": True}
         # ---- input features (as parsed from a GenBank input file)
         if rng.random() < 0.7:
@@ -294,7 +518,7 @@ class C10(Property):
                                   "quals": [["organism", ["Streptomyces generatus"]], ["mol_type", ["genomic DNA"]]]})
         ngenes = rng.choice([0, 1, 2, 3, 4, 6])
         pos = rng.choice([0, 1, 3, unit])
-        names: List[Tuple[str, int]] = []
+        names: List[Tuple[str, int, Dict[str, Any]]] = []
         spanning = circ and rng.random() < 0.35 and n >= 120
         span_b = rng.choice([6, 9, 12]) if spanning else 0
         span_a = rng.choice([6, 9, 12]) if spanning else 0
@@ -306,6 +530,9 @@ class C10(Property):
             lo = pos
             strand = rng.choice([1, -1])
             name = f"c{i}"
+            if rng.random() < 0.2:
+                # MAKER-style identifier: long enough for Biopython to wrap the qualifier over two lines
+                name = f"maker-scaffold00012-augustus-gene-0.{i}-mRNA-1_cds{i}"
             r = rng.random()
             if r < 0.25 and lo + 2 * length + 8 <= n - span_a:
                 gap = rng.choice([1, 4, 7])
@@ -317,6 +544,8 @@ class C10(Property):
                 if strand == -1:
                     parts.reverse()
                 loc = compound(parts)
+                if rng.random() < 0.3:
+                    loc["op"] = "order"       # exons whose joining is not asserted
             elif lo + length <= n - span_a:
                 hi = lo + length
                 total = length
@@ -345,26 +574,87 @@ class C10(Property):
             if rng.random() < 0.5:
                 quals.insert(0, ["zzz", ["1"]])
                 quals.append(["label", ["lbl"]])
+            mloc = simple(lo, hi, rng.choice([1, -1]))
+            if hi - lo >= 9 and rng.random() < 0.3:
+                strand = rng.choice([1, -1])
+                parts = [[lo, lo + 3, strand], [lo + 6, lo + 9, strand]]
+                mloc = compound(parts if strand == 1 else parts[::-1])
+                mloc["op"] = rng.choice(["order", "join"])
             case["input"].append({"type": rng.choice(["misc_feature", "regulatory", "misc_feature"]),
-                                  "loc": simple(lo, hi, rng.choice([1, -1])), "quals": quals})
+                                  "loc": mloc, "quals": quals})
         rng.shuffle(case["input"])
         # ---- annotations added by the pipeline
-        for name, total in names:
+        for name, total, gloc in names:
+            short = name if len(name) < 20 else "g" + name[-4:]
+            ann: Dict[str, Any] = {"cds": name, "functions": [], "notes": []}
             if rng.random() < 0.5:
-                funcs = []
-                for _ in range(rng.choice([1, 1, 2])):
-                    func = rng.choice(["biosynthetic", "biosynthetic-additional", "transport", "regulatory", "other"])
-                    funcs.append([func, rng.choice(["rule-based-clusters", "smcogs"]),
-                                  rng.choice(["desc one", "SMCOG1000: thing"]),
-                                  rng.choice(self.PRODUCTS) if func == "biosynthetic" else None])
-                case["annot"].append({"cds": name, "functions": funcs,
-                                      "notes": ["smCOG tree PNG image: smcogs/x.png"] if rng.random() < 0.4 else []})
+                for _ in range(rng.choice([1, 1, 2, 3])):
+                    func = rng.choice(["biosynthetic", "biosynthetic-additional", "transport", "regulatory", "resistance",
+                                       "other"])
+                    ann["functions"].append([func, rng.choice(["rule-based-clusters", "smcogs", "resist", "cluster_hmmer"]),
+                                             rng.choice(["desc one", "desc two", "desc three", "PF00005 (E-value 1e-10)", "PF00005 (E-value 1e-10)",
+                                                         "transporter", "regulator", "SMCOG1000: thing"]),
+                                             rng.choice(self.PRODUCTS) if func == "biosynthetic" else None])
+                if rng.random() < 0.4:
+                    ann["notes"] = ["smCOG tree PNG image: smcogs/x.png"]
+            if rng.random() < 0.25:
+                ann["sec_met"] = [[rng.choice(["PKS_KS", "AMP-binding", "LANC_like"]), rng.choice([1.2e-30, 0.0, 3.5e-07]),
+                                   rng.choice([250.5, 0.0, 17.0]), rng.choice([5, 120]), "rule-based-clusters"]
+                                  for _ in range(rng.choice([1, 2]))]
             aa = total // 3 - 1
-            if aa >= 2 and rng.random() < 0.4 and not name.startswith("cspan"):
+            ndom = 0
+            if aa >= 2 and not name.startswith("cspan"):
+                ndom = rng.choice([0, 0, 1, 1, 2, 3])
+            mine = []
+            for _ in range(ndom):
                 ps = rng.randrange(0, aa - 1)
                 pe = rng.randrange(ps + 1, aa)
-                case["domains"].append({"kind": rng.choice(["pfam", "asdom", "motif"]), "cds": name, "ps": ps, "pe": pe,
-                                        "n": len(case["domains"])})
+                dom = {"kind": rng.choice(["pfam", "asdom", "asdom", "motif"]), "cds": name, "ps": ps, "pe": pe,
+                       "n": len(case["domains"]),
+                       # a hit score of exactly 0.0 and negative scores are legal (lenient e-value cut-offs)
+                       "score": rng.choice([None, 0.0, 0.0, -1.2, 5.3, 250.75]),
+                       "evalue": rng.choice([None, 0.0, 0.12, 1.2e-05, 3.4e-30]),
+                       "label": rng.choice([None, "C1_example", "nrpspksdomains_x_PKS_KS.1"]),
+                       "database": rng.choice([None, "abmotifs", "Pfam-A.hmm 31.0"]),
+                       "detection": rng.choice([None, "hmmscan"]),
+                       "translation": rng.random() < 0.6,
+                       "asf": rng.choice([[], [], ["active site found: serine"], ["note one", "note two"]])}
+                if dom["kind"] == "pfam":
+                    dom["version"] = rng.choice([None, 3, 14])
+                    if rng.random() < 0.4:
+                        dom["go"] = sorted(rng.sample([["GO:0004871", "signal transducer activity"],
+                                                       ["GO:0007165", "signal transduction"],
+                                                       ["GO:0016020", "membrane: integral"]], rng.choice([1, 2])))
+                case["domains"].append(dom)
+                mine.append(dom)
+            asdoms = [d for d in mine if d["kind"] == "asdom"]
+            if asdoms and rng.random() < 0.6:
+                case["modules"].append({"domains": [d["n"] for d in sorted(asdoms, key=lambda d: d["ps"])],
+                                        "type": rng.choice(["nrps", "pks", "unknown", "cal"]),
+                                        "complete": rng.random() < 0.5, "starter": rng.random() < 0.3,
+                                        "final": rng.random() < 0.3, "iterative": rng.random() < 0.2,
+                                        "monomers": rng.choice([[], [["mal", "ccmal"]], [["ala", "d-ala"], ["gly", "gly"]]])})
+            if asdoms and rng.random() < 0.5:
+                ann["nrps_pks"] = {"type": rng.choice([None, "NRPS", "Type I Modular PKS"]),
+                                   "domains": [[rng.choice(["PKS_KS", "PKS_AT", "AMP-binding", "PCP", "Condensation"]), d["ps"], d["pe"],
+                                                rng.choice([1.5e-20, 0.0, 0.02]), rng.choice([100.5, 0.0, 7.25]),
+                                                "asdom_%s_%d" % (short, d["n"]), rng.choice([[], ["Trans-AT-KS"], ["Condensation_LCL"]])]
+                                               for d in sorted(asdoms, key=lambda d: (d["ps"], d["pe"]))]}
+            if ann["functions"] or ann["notes"] or ann.get("sec_met") or ann.get("nrps_pks"):
+                case["annot"].append(ann)
+            # precursor peptides: leader, core and tail written as three features, rebuilt from the core
+            total_aa = total // 3
+            if total_aa >= 3 and total % 3 == 0 and not gloc["c"] and rng.random() < 0.3 and not name.endswith("x"):
+                if gloc["parts"][0][2] == 1 or rng.random() < 0.15:
+                    lead = rng.choice([0, 1, total_aa // 3])
+                    tail = rng.choice([0, 0, 1]) if total_aa - lead >= 2 else 0
+                    core = total_aa - lead - tail
+                    case["prepeptides"].append({
+                        "cds": name, "class": rng.choice(["lanthipeptide", "sactipeptide", "thiopeptide"]),
+                        "subclass": rng.choice(["Class-I", "Type-II", ""]), "tool": rng.choice(["lanthipeptides", "sactipeptides"]),
+                        "leader": "M" * lead, "core": "C" * core, "tail": "G" * tail,
+                        "score": rng.choice([0.0, 12.5, -3.25]), "mono": rng.choice([800.1, 0.0]),
+                        "mw": rng.choice([801.2, 2345.6]), "alt": rng.choice([[], [819.2], [819.2, 837.2]])})
         for _ in range(rng.choice([0, 0, 1])):
             lo = rng.randrange(0, n - 3)
             case["generics"].append({"type": "misc_feature", "loc": simple(lo, lo + 3, rng.choice([1, -1, None])),
@@ -409,12 +699,11 @@ class C10(Property):
                 kept.append(f)
         kept = [f for f in kept if not any(q[0] == "locus_tag" and q[1][0] in dropped for q in f["quals"])]
         case["input"] = kept
-        case["annot"] = [a for a in case["annot"] if a["cds"] not in dropped]
-        case["domains"] = [d for d in case["domains"] if d["cds"] not in dropped]
         case["generics"] = [g for g in case["generics"] if start(g["loc"]) not in starts]
+        _prune(case)
 
     def _add_gene(self, rng: random.Random, case: Dict[str, Any], name: str, loc: Dict[str, Any], total: int,
-                  names: List[Tuple[str, int]], codon_ok: bool) -> None:
+                  names: List[Any], codon_ok: bool) -> None:
         quals: List[List[Any]] = [["locus_tag", [name]]]
         if rng.random() < 0.3:
             quals.append(["gene", ["g" + name]])
@@ -433,7 +722,7 @@ class C10(Property):
         if rng.random() < 0.3:
             cds_quals.append(["db_xref", ["GI:12345"]])
         case["input"].append({"type": "CDS", "loc": loc, "quals": cds_quals})
-        names.append((name, total - shift))
+        names.append((name, total - shift, loc))
 
     def _extend(self, rng: random.Random, n: int, circ: bool, lo: int, hi: int, nb: int, strand: Any) -> Dict[str, Any]:
         s, e = lo - nb, hi + nb
@@ -508,7 +797,7 @@ class C10(Property):
         return out
 
     def cases(self, rng: random.Random, tier: str, deep: bool) -> Iterator[Dict[str, Any]]:
-        count = 24000 if deep else 3600
+        count = 16000 if deep else 2400
         generated = (self.gen_layout(rng, tier) for _ in range(count))
         yield from self._precomputed(generated)
         if deep:
@@ -593,7 +882,17 @@ class C10(Property):
     def driver_line(self, case: Dict[str, Any], obs: Dict[str, Any]) -> Optional[Dict[str, Any]]:
         if "state" not in obs:
             return None
-        return {"f": "record", "rec": obs["state"], "re_gb": obs["re_gb"], "re_json": obs["re_json"]}
+        line = {"f": "record", "rec": for_model(obs["state"]), "re_gb": for_model(obs["re_gb"]),
+                "re_json": for_model(obs["re_json"])}
+        if any(_reverse_prepeptide(f) for f in obs["state"]["others"]):
+            # recorded finding KF-C10-reverse-prepeptide-location: such prepeptides are judged on their attribute
+            # dumps (with the part structure of the location set aside), not by the Lean view
+            def without(state: Dict[str, Any]) -> Dict[str, Any]:
+                return dict(state, others=[f for f in state["others"] if not _reverse_prepeptide(f)])
+            line["spec_rec"] = without(line["rec"])
+            line["re_gb"] = without(line["re_gb"])
+            line["re_json"] = without(line["re_json"])
+        return line
 
     def judge(self, case: Dict[str, Any], obs: Dict[str, Any], drv: Optional[Dict[str, Any]]) -> Judgement:
         if "skip" in obs:
@@ -609,14 +908,17 @@ class C10(Property):
         # ---- correspondence: first write, re-read state, second write
         problems = []
         w1 = drv["w1"].get("ok")
-        if w1 != obs["w1"]:
-            problems.append("first write: " + _list_diff(w1, obs["w1"], drv["w1"]))
+        real_w1 = modelled_bios(obs["w1"], state["pre_locs"])
+        if w1 != real_w1:
+            problems.append("first write: " + _list_diff(w1, real_w1, drv["w1"]))
         r1 = drv["r1"].get("ok")
-        if r1 is None or canon_state(r1) != canon_state(obs["re_json"]):
-            problems.append("re-read state: " + _state_diff(r1, obs["re_json"], drv["r1"]))
+        real_r1 = for_model(obs["re_json"])
+        if r1 is None or canon_state(r1) != canon_state(real_r1):
+            problems.append("re-read state: " + _state_diff(r1, real_r1, drv["r1"]))
         w2 = drv["w2"].get("ok")
-        if w2 != obs["w2"]:
-            problems.append("second write: " + _list_diff(w2, obs["w2"], drv["w2"]))
+        real_w2 = modelled_bios(obs["w2"], obs["re_json"]["pre_locs"])
+        if w2 != real_w2:
+            problems.append("second write: " + _list_diff(w2, real_w2, drv["w2"]))
         if drv["cores"] != [c["coreloc"] for c in state["cands"]]:
             problems.append(f"candidate core locations: model {drv['cores']} vs {[c['coreloc'] for c in state['cands']]}")
         if not drv["rj_same"]:
@@ -625,6 +927,17 @@ class C10(Property):
         # ---- spec on the implementation's outputs
         bad = [k for k in ("spec_gb", "spec_json") if drv.get(k) is not True]
         bad += [k for k in ("text_fixed", "json_fixed", "seq_same", "topology_same", "id_same") if not obs[k]]
+        # every attribute of every feature that is not an area (the classes the model treats as opaque
+        # qualifier text), incl. the operator of compound locations and the parts of prepeptides
+        diff_gb = attrs_diff(state["attrs"], obs["re_gb"]["attrs"], textual=True)
+        diff_json = attrs_diff(state["attrs"], obs["re_json"]["attrs"], textual=False)
+        attr_bad = []
+        if diff_gb:
+            attr_bad.append("attributes after GenBank: " + diff_gb)
+        if diff_json:
+            attr_bad.append("attributes after JSON: " + diff_json)
+        other_bad = list(bad)
+        bad += attr_bad
         spec_ok = not bad
         detail = "; ".join(problems)
         if bad:
@@ -652,23 +965,65 @@ class C10(Property):
         if state["regs"]:
             tags.append("regions")
         nontrivial = bool(state["protos"] or state["subs"] or case.get("annot"))
+        if case.get("prepeptides"):
+            tags.append("prepeptide")
+        if any(d.get("score") == 0.0 for d in case.get("domains", [])):
+            tags.append("zero-score-domain")
+        if any(f["loc"].get("op") == "order" for f in case.get("input", [])):
+            tags.append("order-location")
+        if case.get("modules"):
+            tags.append("module")
         known = None
         if not spec_ok and not (drv["swo"] and drv["sorted"]):
             # the recorded class: the feature ordering is inconsistent on this record (see known_findings.json)
             known = KF_ORDER
+        elif not spec_ok and not other_bad:
+            known = self._known_class(case, obs)
         return Judgement(corr, spec_ok, in_scope=scope, known=known, nontrivial=nontrivial, tags=tuple(sorted(set(tags))),
                          detail=detail[:1500])
 
+    @staticmethod
+    def _known_class(case: Dict[str, Any], obs: Dict[str, Any]) -> Optional[str]:
+        """the recorded attribute-level findings (known_findings.json); a case belongs to one of them only when,
+        apart from exactly what the finding describes, no attribute of any feature differs"""
+        strands = {q[1][0]: f["loc"]["parts"][0][2] for f in case.get("input", []) if f["type"] == "CDS"
+                   for q in f["quals"] if q[0] == "locus_tag"}
+        reverse_pre = any(strands.get(p["cds"]) == -1 for p in case.get("prepeptides", []))
+        colon = any(product is None and ": " in desc for a in case.get("annot", []) for _f, _t, desc, product in a["functions"])
+
+        def blur(obj: Any, pre: bool, func: bool) -> Any:
+            if isinstance(obj, list):
+                return [blur(x, pre, func) for x in obj]
+            if not isinstance(obj, dict):
+                return obj
+            if pre and obj.get("cls") == "Prepeptide" and obj["@loc"]["parts"][0][2] == -1:
+                lo = min(p[0] for p in obj["@loc"]["parts"])
+                hi = max(p[1] for p in obj["@loc"]["parts"])
+                obj = dict(obj, **{"@loc": [lo, hi]})
+            if func and obj.get("cls") == "_GeneFunctionAnnotation":
+                text = obj["description"] if not obj["product"] else f"{obj['product']}: {obj['description']}"
+                return {"cls": obj["cls"], "function": obj["function"], "tool": obj["tool"], "text": text}
+            return {k: blur(v, pre, func) for k, v in obj.items()}
+
+        def same(pre: bool, func: bool) -> bool:
+            a = blur(obs["state"]["attrs"], pre, func)
+            return not attrs_diff(a, blur(obs["re_gb"]["attrs"], pre, func), textual=True) and \
+                not attrs_diff(a, blur(obs["re_json"]["attrs"], pre, func), textual=False)
+        if colon and same(False, True):
+            return KF_FUNCTION
+        if reverse_pre and same(True, False):
+            return KF_PREPEPTIDE
+        if colon and reverse_pre and same(True, True):
+            return KF_FUNCTION
+        return None
+
     def shrink(self, case: Dict[str, Any]) -> Iterator[Dict[str, Any]]:
-        for key in ("input", "annot", "domains", "generics", "subs"):
+        for key in ("input", "annot", "domains", "modules", "prepeptides", "generics", "subs"):
             items = case.get(key, [])
             for i in range(len(items)):
                 new = dict(case)
                 new[key] = items[:i] + items[i + 1:]
-                if key == "input":
-                    names = {q[1][0] for f in new["input"] if f["type"] == "CDS" for q in f["quals"] if q[0] == "locus_tag"}
-                    new["annot"] = [a for a in case.get("annot", []) if a["cds"] in names]
-                    new["domains"] = [d for d in case.get("domains", []) if d["cds"] in names]
+                _prune(new)
                 yield new
         protos = case.get("protos", [])
         for i in range(len(protos)):
@@ -686,6 +1041,26 @@ class C10(Property):
                 yield dict(case, cands=case["cands"][:i] + case["cands"][i + 1:])
         if case.get("regions", True):
             yield dict(case, regions=False)
+
+
+def _reverse_prepeptide(feat: Dict[str, Any]) -> bool:
+    return feat["type"] == "CDS_motif" and feat["loc"]["parts"][0][2] == -1 and \
+        any(q[0] == "prepeptide" for q in feat["quals"])
+
+
+def _prune(case: Dict[str, Any]) -> None:
+    """drops annotations whose CDS / domains are no longer part of the case"""
+    names = {q[1][0] for f in case.get("input", []) if f["type"] == "CDS" for q in f["quals"] if q[0] == "locus_tag"}
+    case["annot"] = [a for a in case.get("annot", []) if a["cds"] in names]
+    case["domains"] = [d for d in case.get("domains", []) if d["cds"] in names]
+    case["prepeptides"] = [d for d in case.get("prepeptides", []) if d["cds"] in names]
+    have = {d["n"] for d in case["domains"]}
+    modules = []
+    for m in case.get("modules", []):
+        doms = [n for n in m["domains"] if n in have]
+        if doms:
+            modules.append(dict(m, domains=doms))
+    case["modules"] = modules
 
 
 def _observe(case: Dict[str, Any]) -> Dict[str, Any]:
@@ -717,6 +1092,10 @@ def _state_diff(model: Any, impl: Any, raw: Any) -> str:
     a, b = canon_state(model), canon_state(impl)
     for key in a:
         if a[key] != b.get(key):
+            if isinstance(a[key], list) and isinstance(b.get(key), list):
+                only_a = [x for x in a[key] if x not in b[key]]
+                only_b = [x for x in b[key] if x not in a[key]]
+                return f"{key}: only in the model {only_a[:1]} only in the implementation {only_b[:1]}"
             return f"{key}: model {a[key]} vs implementation {b.get(key)}"
     return "?"
 
